@@ -465,6 +465,103 @@ def nonlinear_program(arg):
     return res
 
 
+# ------------------------------------------------------------------ NumericalGradient as the gradient provider
+def numgrad_cases():
+    """User-defined functionals (odl.solvers.Functional subclasses with exact polynomial values of degree <= 3)
+    whose .gradient is NumericalGradient(self, method, step), alone and under translation / scalar multiple / sum,
+    on one- and multi-axis tensor spaces incl. weighted ones.  The specification computes the documented difference
+    quotients of the VALUES exactly (FuncSem!NumGrad)."""
+    H = Fraction(1, 2)
+    out = []
+    spaces = [(('rn', 1, 3, [1] * 3), 0), (('rn', 1, 6, [1] * 6), 2), (('rnw', 1, 4, [4] * 4), 1),
+              (('discr', 1, 4, [2] * 4), 2), (('discr', 1, 3, [H] * 3), 0)]
+    for spd, layout in spaces:
+        N = spd[1] * spd[2]
+        alt = lambda a, b: [a if i % 2 == 0 else b for i in range(N)]
+        quad = mkf('Quad', 0, 1, v=[2] * N, u=alt(1, -H))
+        lin = mkf('Quad', 0, 0, u=alt(1, -H))
+        polys = [mkf('L2sq'), quad, lin, mkf('QuadPert', (1, 2), 1, u=alt(-1, 2), args=[mkf('L2sq')]),
+                 mkf('Translate', u=alt(H, -1), args=[mkf('L2sq')]),
+                 mkf('Prod', args=[lin, mkf('L2sq')]), mkf('Prod', args=[lin, quad])]        # degree 3
+        for pi, prog in enumerate(polys):
+            for m in ('forward', 'backward', 'central'):
+                for h in (Fraction(1, 8), Fraction(1, 32)):
+                    rules = [('none', {})]
+                    if pi in (0, 1, 5):
+                        rules += [('Translate', {'u': alt(H, -Fraction(1, 4))}), ('LScale', {'s': Fraction(-3, 2)}),
+                                  ('Sum', {'g': polys[(pi + 1) % 3]})]
+                    for rule, par in rules:
+                        out.append((spd, layout, prog, m, h, rule, par))
+    return out
+
+
+def _user_numgrad(space, inner, method, step):
+    import odl
+    from odl.solvers.functional.derivatives import NumericalGradient
+
+    class UserPolynomial(odl.solvers.Functional):
+        """a user-defined functional: values only; the gradient is taken numerically"""
+
+        def __init__(self):
+            super(UserPolynomial, self).__init__(space, linear=False)
+
+        def _call(self, x):
+            return inner(x)
+
+        @property
+        def gradient(self):
+            return NumericalGradient(self, method=method, step=step)
+    return UserPolynomial()
+
+
+def numgrad_program(arg):
+    i0, i1, seed = arg
+    res = _new_res()
+    res['classes'] |= {'NumericalGradient'}
+    for idx in range(i0, i1):
+        spd, layout, prog, m, h, rule, par = numgrad_cases()[idx]
+        kind, mm, n, W = spd
+        sp = fu.sp_desc(kind, mm, n, W)
+        N = mm * n
+        try:
+            B = fu.Built(sp, prog, 0, layout=layout)
+        except fu.Unbuildable:
+            continue
+        q = lambda vs: [fu.qj(Fraction(v)) for v in vs]
+        U = _user_numgrad(B.space, B.func, m, float(h))
+        ev = {'k': 'numgrad', 'sp': sp, 'f': prog, 'm': m, 'h': fu.qj(h), 'rule': rule, 'u': [], 's': [0, 1],
+              'g': mkf('Const')}
+        if rule == 'Translate':
+            F = U.translated(B.el(par['u']))
+            ev['u'] = q(par['u'])
+        elif rule == 'LScale':
+            F = float(par['s']) * U
+            ev['s'] = fu.qj(par['s'])
+        elif rule == 'Sum':
+            B2 = fu.Built(sp, par['g'], 0, layout=layout)
+            F = U + _user_numgrad(B.space, B2.func, m, float(h))
+            ev['g'] = par['g']
+        else:
+            F = U
+        pts = [[Fraction(1, 2) if i % 2 == 0 else Fraction(-1, 4) for i in range(N)], [Fraction(0)] * N,
+               [Fraction(-3, 4) + Fraction(i, 4) for i in range(N)]]
+        for xv in pts:
+            x = B.el(xv)
+            det = {'stage': 'numgrad', 'case': idx, 'sp': sp, 'f': prog, 'method': m, 'step': str(h), 'rule': rule,
+                   'layout': layout, 'x': q(xv)}
+            try:
+                g = fu.flat(F.gradient(x))
+            except Exception as e:
+                res['viol'].append(({'leaf': 'NumericalGradient', 'ops': fu.shape(prog), 'method': m, 'rule': rule,
+                                     'space': kind, 'weight': 'unit' if all(w == 1 for w in W) else 'weighted',
+                                     'clause': 'gradient-raises', 'error': type(e).__name__}, dict(det, error=str(e)[:200])))
+                break
+            res['counts'].append(([prog, kind, N, m, str(h), rule, q(xv)], True))
+            e2 = dict(ev, x=q(xv), grad=[fu.snapv(v, D=8192, maxden=8192) for v in g])
+            res['events'].append((e2, dict(det, observed=g.tolist())))
+    return res
+
+
 def driver_jobs(seed, quick):
     dprogs = driver_programs(quick, random.Random(seed * 7919 + 13))
     nl = list(range(len(nonlinear_recipes())))
@@ -473,7 +570,8 @@ def driver_jobs(seed, quick):
     return [(driver_program, [(spd, f, seed, 2 if quick else 6, i) for i, (spd, f) in enumerate(dprogs)]),
             (special_program, [(i, seed) for i in range(6)]),
             (derived_program, [(i, seed) for i in range(len(derived_recipes()))]),
-            (nonlinear_program, [(i, seed) for i in nl])]
+            (nonlinear_program, [(i, seed) for i in nl]),
+            (numgrad_program, [(i, min(i + 40, len(numgrad_cases())), seed) for i in range(0, len(numgrad_cases()), 40)])]
 
 
 def driver_program(arg):
@@ -763,6 +861,12 @@ def run(ctx):
             cl = cl.replace('(q)', '')
             if det['stage'] == 'special':
                 cl = 'moreau-envelope-gradient' if det.get('kind') == 'moreau-envelope' else cl
+            if det['stage'] == 'numgrad':
+                W_ = fu.frv(det['sp']['W'])
+                fu.report(ctx, {'leaf': 'NumericalGradient', 'ops': fu.shape(det['f']), 'method': det['method'],
+                                'rule': det['rule'], 'space': det['sp']['kind'],
+                                'weight': 'unit' if all(w == 1 for w in W_) else 'weighted', 'clause': cl}, d)
+                continue
             if det['stage'] == 'nonlinear':
                 fu.report(ctx, {'leaf': 'FunctionalComp', 'ops': det['name'], 'option': det['option'], 'space': 'opaque', 'clause': cl}, d)
                 continue
@@ -781,6 +885,11 @@ def run(ctx):
 def replay(body):
     d = body['detail']
     clause = body['signature']['clause']
+    if d['stage'].endswith('numgrad'):
+        res = numgrad_program((d['case'], d['case'] + 1, body.get('seed', 0)))
+        bad = bool(res['viol']) or _tlc_rejects([e for e, _ in res['events']])
+        print('REPRODUCED' if bad else 'NOT-REPRODUCED')
+        return 1 if bad else 0
     if d['stage'].endswith('nonlinear'):
         res = nonlinear_program((d['recipe'], body.get('seed', 0)))
         hit = [s for s, _ in res['viol'] if s['clause'] == clause]
